@@ -229,10 +229,69 @@ def instantiation_checked(chk, e=None, tag=""):
         label = fn + ("" if synth_ok is None else "[synthesis-succeeds]" if synth_ok else "[falls-back-to-the-expected-type]")
         chk.prove_paths(f"{tag}{label}:the-inferred-instantiation-is-validated-by-check_inst-exactly-once/\\a-bound-violation-rejects-the-call", paths, post, func=f"{EC}:{fn}",
                         replay=lambda m_: {"script": REPLAY_BOUND, "input": {}})
+    # chained solutions: the expected type's variable ?A is solved by the callee's ?S, which only the
+    # argument solves: the call has the instantiation A = S = INT and must type-check, returning A := INT
+    def t_chain(it):
+        GTIE = it.lookup_global(e.module("guppylang_internals.error"), "GuppyTypeInferenceError")
+        INT = SObj(ClassVal("Ty", builtin=True), {"name": "INT", "unsolved_vars": set()})
+        INT.fields["substitute"] = Builtin("substitute", lambda sub: INT)
+        S_, A_ = "?S", "?A"
+        varS = SObj(ClassVal("Ty", builtin=True), {"name": "?S", "unsolved_vars": {S_}})
+        varS.fields["substitute"] = Builtin("substitute", lambda sub: sub[S_].fields["substitute"].fn(sub) if S_ in sub else varS)
+        out_ty = SObj(ClassVal("Ty", builtin=True), {"unsolved_vars": {S_}, "substitute": Builtin("substitute", lambda sub: "OUT-SUBST")})
+        unq = SObj(ClassVal("FunctionType", builtin=True), {"output": out_ty, "inputs": []})
+        fty = SObj(ClassVal("FunctionType", builtin=True), {"unsolved_vars": set(), "inputs": [], "output": out_ty, "unquantified": Builtin("unquantified", lambda: (unq, [S_]))})
+        seen = {}
+        e.models[f"{EC}:check_num_args"] = lambda it2, a, k: None
+        e.models[f"{TY}:unify"] = lambda it2, a, k: {A_: varS}
+        e.models[f"{EC}:type_check_args"] = lambda it2, a, k: (list(a[0]), {**a[2], S_: INT})
+        e.models[f"{EC}:check_all_solved"] = lambda it2, a, k: (seen.__setitem__("subst", dict(a[0])), "INST")[1]
+        e.models[f"{EC}:check_inst"] = lambda it2, a, k: None
+        e.models[f"{EC}:synthesize_call"] = lambda it2, a, k: (_ for _ in ()).throw(PyRaise(it.call(GTIE, [SObj(ClassVal("Diag", builtin=True), {"kind": "cannot-infer"})], {})))
+        exp = SObj(ClassVal("Ty", builtin=True), {"unsolved_vars": {A_}})
+        r = it.call(it.lookup_global(m, "check_call"), [fty, ["ARG"], exp, "NODE", None], {})
+        return r, seen, INT
+    chk.prove_paths(f"{tag}check_call[falls-back,chained-solutions ?A:=?S,?S:=INT]:type-checks/\\returns-the-resolved-solution-?A:=INT/\\the-instantiation-is-computed-from-a-closed-substitution", e.explore(t_chain),
+                    lambda p: z3.BoolVal(p.kind == "return" and p.value[0][1] == {"?A": p.value[2]} and p.value[0][2] == "INST" and all(v is p.value[2] for v in p.value[1]["subst"].values())),
+                    func=f"{EC}:check_call", replay=lambda m_: {"script": REPLAY_CHAIN, "input": {}})
     for k in (f"{EC}:check_num_args", f"{EC}:type_check_args", f"{EC}:check_all_solved", f"{TY}:unify", f"{EC}:check_inst", f"{EC}:synthesize_call"):
         e.models.pop(k, None)
     if own:
         chk.use_engine(e)
+
+
+REPLAY_CHAIN = r'''
+import guppy_plainbool
+import tempfile, importlib.util, os, sys, shutil
+src = """from guppylang import guppy
+from guppylang.std.builtins import result
+from guppylang.std.option import Option, nothing
+S = guppy.type_var("S"); R = guppy.type_var("R"); A = guppy.type_var("A")
+@guppy
+def none_of(x: S) -> tuple[S, Option[R]]:
+    return x, nothing()
+@guppy
+def foo(p: tuple[A, Option[int]], q: A) -> A:
+    a, o = p
+    return a
+@guppy
+def main() -> None:
+    result("r", foo(none_of(7), 2))
+"""
+d = tempfile.mkdtemp(dir=os.environ.get("TMPDIR", "/var/tmp")); fn = os.path.join(d, "replay_c12c.py"); open(fn, "w").write(src)
+spec = importlib.util.spec_from_file_location("replay_c12c", fn); m = importlib.util.module_from_spec(spec); sys.modules["replay_c12c"] = m
+try:
+    spec.loader.exec_module(m)
+    try:
+        got = [list(x) for x in list(m.main.emulator(n_qubits=1).run().results)[0].entries]
+        out = {"violates": got != [["r", 7]], "observed": got, "required": [["r", 7]]}
+    except AssertionError as ex:
+        out = {"violates": True, "observed": "AssertionError in check_call (substitution not closed)", "required": "the call type-checks: A = S = int, R = int"}
+except Exception as ex:
+    out = {"violates": False, "error": repr(ex)[:300]}
+shutil.rmtree(d, ignore_errors=True)
+print(json.dumps(out))
+'''
 
 
 REPLAY_BOUND = r'''
